@@ -702,6 +702,7 @@ void assignIndicesWorker(LockFreeStack<N>& tasks,
     std::stack<AssignIndexTask<N>, std::vector<AssignIndexTask<N>>> local;
 
     while (!done.load() && !cancel.load()) {
+        LIBFIVE_VERIF_POINT("assign.loop", nullptr);
         // Pick a task from the local empty, falling back to the MPMC
         // stack if the local stack is empty.  If both are empty, then
         // spin here until another thread adds a task to the global stack.
